@@ -262,6 +262,6 @@ def run_case(case, obs) -> None:  # noqa: C901, PLR0912, PLR0915
         obs.count("round_trips_after_metric_reassignment")
         trip(q2, p2, d2, f":after-metric-reassignment")
     fc = "small" if case["frac"] < 0.05 else ("mid" if case["frac"] < 0.4 else "large")
-    obs.token(spec["sys"], spec.get("metric", spec.get("constr", "-")), ispec["int"], intgen.stages(ispec),
+    obs.token(spec["sys"], spec.get("metric", spec.get("constr", spec.get("generic", "-"))), ispec["int"], intgen.stages(ispec),
               ispec.get("solver", "-"), ispec.get("tight"), fc, case["dir"])
     obs.sample({"sys": spec["sys"], "int": ispec, "eps": eps, "n": case["n"], "dir": case["dir"], "return_error": err})
